@@ -829,7 +829,7 @@ var Props = []*pbt.Entry{
 		"Go-subset programs biased to the simulator-faithful opcode set: register variables (reg_ names), = := ++ -- + *, if/else on constants and ==, for with/without clauses, break/continue, value functions (inlined), IOWrite/IORead, a small share of switch (default-only switches compile without a comparison), unsupported operators and -mpm with independent `go f()` workers; integer literals in every spelling (0x, 0b, leading zero; legacy octal in ~6% of the programs), break inside switch clauses, value functions called as statements (~4%: a function that writes an output), 0-8 inputs and 1-5 outputs (9-10 inputs, the recorded termination finding, in ~2%), Make calls out of declaration order (~8%)"+ruleCommon,
 		genCase(GenOpts{Faithful: true}), prop),
 	pbt.Def("compile_full",
-		"Go-subset programs over the whole accepted grammar: additionally RAM variables (r2m/m2r), == everywhere, switch/fallthrough, -mpm with `go f()` workers, channel producers and by-value goroutine arguments (one or two), plus the literal/break/call-statement/IO-count/Make-order shapes of compile_faithful"+ruleCommon,
+		"Go-subset programs over the whole accepted grammar: additionally RAM variables (r2m/m2r), == everywhere, switch/fallthrough, -mpm with `go f()` workers, channel producers, (about a sixth of the -mpm programs) a value-returning helper that sends on a channel parameter and is called inline from main with consumers started by go — also with a second channel declared after the call and with a second call site on the same channel —, by-value goroutine arguments (one or two), plus the literal/break/call-statement/IO-count/Make-order shapes of compile_faithful"+ruleCommon,
 		genCase(GenOpts{Faithful: false}), prop),
 }
 
@@ -1715,5 +1715,91 @@ func main() {
 	}
 	if got := classifyDump(strings.Replace(dump, "goroutine 19 [chan receive]", "goroutine 19 [runnable]", 1)); got != "slow" {
 		t.Errorf("classifyDump with a runnable goroutine %q, expected slow", got)
+	}
+}
+
+// TestRefChannels pins the reference on channels: routines run as coroutines, an inlined helper sends on the
+// caller's channel, consumers started by go write what they receive (streams checked against the same program
+// written with real goroutines and unbuffered channels: w1 5 6 7…, w2 8 9 10…, main 7 8 9…).
+func TestRefChannels(t *testing.T) {
+	src := hdr + `func put(c chan uint8, v uint8) uint8 {
+	c <- v
+	return v + 1
+}
+
+func w1(c chan uint8) {
+	var o bondgo.Output
+	var reg_p uint8
+	o = bondgo.Make(bondgo.Output, 1)
+	for {
+		reg_p = <-c
+		bondgo.IOWrite(o, reg_p)
+	}
+}
+
+func w2(c chan uint8) {
+	var o bondgo.Output
+	var reg_q uint8
+	o = bondgo.Make(bondgo.Output, 2)
+	for {
+		reg_q = <-c
+		bondgo.IOWrite(o, reg_q)
+	}
+}
+
+func main() {
+	var out0 bondgo.Output
+	var c1 chan uint8
+	var reg_x uint8
+	out0 = bondgo.Make(bondgo.Output, 3)
+	go w1(c1)
+	reg_x = put(c1, 5)
+	var c2 chan uint8
+	go w2(c2)
+	for {
+		c2 <- reg_x + 2
+		reg_x = put(c1, reg_x)
+		bondgo.IOWrite(out0, reg_x)
+	}
+}
+`
+	for round := 0; round < 2; round++ { // the same twice: the schedule is fixed
+		r, err := RefEval(src, 8, make([]uint64, nInVals), refBudget{MaxEvals: 4000, MaxWrites: 5})
+		if err != nil {
+			t.Fatal(err)
+		}
+		if len(r.Routines) != 3 || r.Routines[1].Func != "w1" || r.Routines[2].Func != "w2" {
+			t.Fatalf("routines %+v", r.Routines)
+		}
+		// (budget: five writes per routine. w1 is the first to have written five; main's next send to it then
+		// waits for good, after four writes of its own: every stream is a prefix of the unbounded program's)
+		for k, exp := range []string{"[7 8 9 10]", "[5 6 7 8 9]", "[8 9 10 11 12]"} {
+			if got := fmt.Sprint(r.Routines[k].Streams[0]); got != exp {
+				t.Errorf("routine %d (%s, %s): %s, expected %s", k, r.Routines[k].Func, r.Routines[k].Stopped, got, exp)
+			}
+		}
+	}
+	f, err := StaticFacts(src)
+	if err != nil {
+		t.Fatal(err)
+	}
+	for _, l := range []string{"inline-call-with-chan", "chan-declared-after-inline-call-with-chan", "chan-passed-to-inline-call-twice", "go-chan-arg"} {
+		if !f.Labels[l] {
+			t.Errorf("label %s missing: %v", l, f.Labels)
+		}
+	}
+	// a receiver whose sender never comes ends blocked, without values
+	r, err := RefEval(hdr+`func main() {
+	var out0 bondgo.Output
+	var c1 chan uint8
+	var reg_x uint8
+	out0 = bondgo.Make(bondgo.Output, 3)
+	bondgo.IOWrite(out0, 1)
+	reg_x = <-c1
+	bondgo.IOWrite(out0, reg_x)
+}
+`, 8, make([]uint64, nInVals), refBudget{MaxEvals: 4000, MaxWrites: 5})
+	if err != nil || r.Routines[0].Stopped != "blocked" || fmt.Sprint(r.Routines[0].Streams[0]) != "[1]" {
+		t.Errorf("lonely receiver: err=%v %+v", err, r.Routines)
 	}
 }
